@@ -40,6 +40,23 @@ async def until(pred, timeout=BACKSTOP):
         await asyncio.sleep(0 if k < 50 else 0.002)
 
 
+async def until_progress(pred, progress, timeout=BACKSTOP):
+    """like until(), but the backstop only runs while progress() does not change"""
+    t0 = time.monotonic()
+    last = progress()
+    k = 0
+    while True:
+        if pred():
+            return True
+        cur = progress()
+        if cur != last:
+            last, t0 = cur, time.monotonic()
+        if time.monotonic() - t0 > timeout:
+            return False
+        k += 1
+        await asyncio.sleep(0 if k < 50 else 0.002)
+
+
 class Rec(asyncio.Protocol):
     """An endpoint that records what it sees."""
 
@@ -70,8 +87,17 @@ class Rec(asyncio.Protocol):
         return self.eof or self.lost
 
 
+_BLOCKS = {}
+
+
 def payload(tag, n):
-    return bytes((tag * 37 + i * 11 + (i >> 8)) & 255 for i in range(n))
+    """n deterministic bytes; period 65521 (prime) so that no chunk / window boundary lines up with it"""
+    if n <= 4096:
+        return bytes((tag * 37 + i * 11 + (i >> 8)) & 255 for i in range(n))
+    b = _BLOCKS.get(tag)
+    if b is None:
+        b = _BLOCKS[tag] = bytes((tag * 37 + i * 11 + (i >> 8)) & 255 for i in range(65521))
+    return (b * (n // len(b) + 1))[:n]
 
 
 def make_server_class(asyncssh):
@@ -92,6 +118,8 @@ def make_server_class(asyncssh):
             return True
     return Srv
 
+
+WINDOW_PLUS = 2 * 1024 * 1024 + 300000
 
 FWD_KINDS = ['local_port', 'remote_port', 'socks5', 'socks4', 'socks4a', 'local_path', 'remote_path']
 
@@ -188,15 +216,21 @@ class Scenario:
 
         async def sync():
             """everything sent so far has arrived; half-closes have been propagated"""
-            if held or link_lost or abrupt or cli is None:
-                return
+            if held or link_lost or abrupt or cli is None or self.bad:
+                return          # (after a first failure the later waits would only add backstop time)
             if not await need_dest():
                 return
             d = dests[0]
-            if not await until(lambda: bytes(d.buf) == bytes(sent['c']) or d.lost):
-                self.fail('client->destination data incomplete: %d of %d bytes' % (len(d.buf), len(sent['c'])))
-            if not await until(lambda: cli_data() == bytes(sent['d']) or cli.lost):
-                self.fail('destination->client data incomplete: %d of %d bytes' % (len(cli_data()), len(sent['d'])))
+            if not await until_progress(lambda: len(d.buf) >= len(sent['c']) or d.lost, lambda: len(d.buf)):
+                self.fail('client->destination data incomplete: %d of %d bytes%s' %
+                          (len(d.buf), len(sent['c']), ' (after the destination half-closed)' if eof_sent['d'] else ''))
+            elif bytes(d.buf) != bytes(sent['c']) and not d.lost:
+                self.fail('client->destination data differs')
+            if not await until_progress(lambda: len(cli.buf) - skip >= len(sent['d']) or cli.lost, lambda: len(cli.buf)):
+                self.fail('destination->client data incomplete: %d of %d bytes%s' %
+                          (len(cli_data()), len(sent['d']), ' (after the client half-closed)' if eof_sent['c'] else ''))
+            elif cli_data() != bytes(sent['d']) and not cli.lost:
+                self.fail('destination->client data differs')
             if eof_sent['c'] and not await until(d.ended):
                 self.fail('half-close client->destination not propagated')
             if eof_sent['d'] and not await until(cli.ended):
@@ -224,6 +258,15 @@ class Scenario:
                 if fwd.startswith('socks'):
                     req, skip = socks_request(fwd, dport)
                     cli.tr.write(req)
+                await memwire.settle(8)
+            elif k == 'connect_partial':
+                # a SOCKS client that sends only the first n bytes of its request
+                cli = Rec()
+                await loop.create_connection(lambda: cli, *target)
+                req, _sk = socks_request(fwd, dport)
+                if st[1]:
+                    cli.tr.write(req[:st[1]])
+                skip = 10 ** 9          # whatever the proxy answers is not relayed data
                 await memwire.settle(8)
             elif k == 'send':
                 side, n, tagb = st[1], st[2], st[3]
@@ -318,7 +361,7 @@ class Scenario:
         elif listener_closed and fwd in ('local_port', 'socks5', 'socks4', 'socks4a', 'local_path', 'remote_port', 'remote_path'):
             expect = base_setup - 1
         if cli is not None or link_lost:
-            if not await until(lambda: sock_fds() <= expect):
+            if not await until(lambda: sock_fds() <= expect, 1.0 if self.bad else BACKSTOP):
                 self.fail('relayed sockets not released: %d socket fds, expected %d' % (sock_fds(), expect))
             try:
                 nch = len(conn._channels) + len(wire.sconn._channels)
@@ -409,6 +452,18 @@ def gen_scenario(rng, template=None, fwd=None):
             steps.append(['eof', first])
             steps.append(['sync'])
             sends(2, (second,))
+            steps.append(['sync'])
+            steps.append(['eof', second])
+            steps.append(['sync'])
+        elif template == 'window':
+            # one end half-closes, then the other direction carries more than one channel window
+            # (_DEFAULT_WINDOW = 2 MiB; the forwarding APIs take no window argument)
+            first = rng.choice(['c', 'd'])
+            second = 'd' if first == 'c' else 'c'
+            steps.append(['eof', first])
+            steps.append(['sync'])
+            for _ in range(3):
+                steps.append(['send', second, WINDOW_PLUS // 3 + rng.randrange(1000), rng.randrange(256)])
             steps.append(['sync'])
             steps.append(['eof', second])
             steps.append(['sync'])
@@ -562,6 +617,67 @@ async def race_scenario(sc):
             os.unlink(os.path.join(sc['workdir'], 'r-%d.sock' % os.getpid()))
         except OSError:
             pass
+    return bad
+
+
+async def dynports_scenario(sc):
+    """sc = {'dynports': [api, ...], 'end': 'close'|'abort'|'cut'}: several listeners on dynamically
+    assigned ports on ONE connection, none closed by hand; once the connection has ended every bound
+    port must refuse connections."""
+    import asyncssh
+    bad = []
+    base0 = sock_fds()
+    tun, wire, acc, conn = await memwire.connected_pair(make_server_class(asyncssh))
+    ports = []
+
+    async def handler(reader, writer):
+        writer.close()
+    for api in sc['dynports']:
+        if api == 'local_port':
+            l = await conn.forward_local_port('127.0.0.1', 0, '127.0.0.1', 9)
+        elif api == 'local_port_any':
+            l = await conn.forward_local_port('', 0, '127.0.0.1', 9)
+        elif api == 'socks':
+            l = await conn.forward_socks('127.0.0.1', 0)
+        elif api == 'remote_port':
+            l = await conn.forward_remote_port('127.0.0.1', 0, '127.0.0.1', 9)
+        elif api == 'local_port_to_path':
+            l = await conn.forward_local_port_to_path('127.0.0.1', 0, '/nonexistent')
+        else:
+            l = await conn.start_server(lambda h, p: handler, '127.0.0.1', 0)
+        ports.append((api, l.get_port()))
+    if len(set(p for _, p in ports)) != len(ports) or any(p == 0 for _, p in ports):
+        bad.append('dynamic ports not distinct / not reported: %r' % (ports,))
+    # (no connect probe before the end: a probe is itself a forwarded connection)
+    await memwire.settle(20)
+    if sc['end'] == 'close':
+        conn.close()
+    elif sc['end'] == 'abort':
+        conn.abort()
+    else:
+        wire.cut_link()
+    try:
+        await asyncio.wait_for(conn.wait_closed(), BACKSTOP)
+    except Exception:
+        bad.append('connection did not close')
+    await until(lambda: getattr(wire.sconn, 'is_closed', lambda: True)())
+    await until(lambda: sock_fds() <= base0, 2.0)
+    still = []
+    for api, p in ports:
+        s = socket.socket()
+        s.settimeout(2)
+        try:
+            s.connect(('127.0.0.1', p))
+            still.append((api, p))
+        except OSError:
+            pass
+        finally:
+            s.close()
+    if still:
+        bad.append('listeners still accept connections after the connection ended: %r (all: %r)' % (still, ports))
+    await memwire.settle(10)
+    if sock_fds() > base0 and not await until(lambda: sock_fds() <= base0, 2.0):
+        bad.append('sockets left after the connection ended: %d, baseline %d' % (sock_fds(), base0))
     return bad
 
 
